@@ -106,7 +106,9 @@ def model_check(chk, tier, known):
                 ("repl_t2_l2", consts(3, [], 2, 2, 2, 2, sym=True)),
                 ("repl_t3_l1", consts(3, [], 3, 1, 2, 2, sym=True)),
                 ("crash_t2_l1", consts(3, [], 2, 1, 1, 2, crash=1, sym=True)),
-                ("elect_n4_t1", consts(4, [], 1, 0, 0, 3, sym=True))]
+                ("elect_n4_t1", consts(4, [], 1, 0, 0, 4, sym=True)),
+                ("elect_n5_t1", consts(5, [], 1, 0, 0, 5, sym=True)),
+                ("repl_n4_t1_l1", consts(4, [], 1, 1, 1, 4, sym=True))]
     for name, c in safe:
         jobs.append(("safe",) + job(name, c, sym=True, timeout=3000 if tier != "quick" else 600,
                                     env=JVM_LONG if tier != "quick" else JVM_SHORT))
@@ -139,6 +141,9 @@ def model_check(chk, tier, known):
         if kind == "safe":
             chk.add_tlc(f"RaftImpl Dev={{}} {name} (symmetric)", res)
             chk.require(res.ok, f"RaftImpl with Dev={{}} violates {res.violated} in {name}")
+        elif kind == "simulate":
+            chk.add_tlc("RaftImpl Dev={} 5 nodes, simulation mode (random behaviours, depth 90)", res)
+            chk.require(res.ok, f"RaftImpl with Dev={{}} violates {res.violated} in simulation mode (5 nodes)")
         elif kind.startswith("dev:"):
             dev = kind[4:]
             chk.add_tlc(f"RaftImpl Dev={{{dev}}}", res, count=False, note="sensitivity run, must violate")
@@ -324,9 +329,8 @@ def model_behaviours(chk, tier, known, rng):
         confs = [("g_t2_l1", consts(3, known, 2, 1, 1, 2, toseq=(1, 2)), 100000),
                  ("g_crash", consts(3, known, 1, 1, 1, 2, crash=1, toseq=(1,)), 100000),
                  ("g_l2", consts(3, known, 1, 2, 2, 2, toseq=(2,)), 100000),
-                 ("g_t2_o2", consts(3, known, 2, 1, 2, 2, toseq=(1, 3)), 100000),
-                 ("g_t3", consts(3, known, 3, 1, 2, 2, toseq=(1, 2, 1)), 6000),
-                 ("g_free", consts(3, known, 2, 1, 1, 2), 6000)]
+                 ("g_t2_o2", consts(3, known, 2, 1, 2, 2, toseq=(1, 3)), 6000),
+                 ("g_t3", consts(3, known, 3, 1, 2, 2, toseq=(1, 2, 1)), 5000)]
     out = []
 
     def dump(item):
@@ -665,7 +669,7 @@ def validate(traces_by_n, dev, label, chunk=7000):
         d.mkdir(parents=True, exist_ok=True)
         f = d / "traces.json"
         f.write_text(json.dumps(part, separators=(",", ":")))
-        res = tlc.run(SPEC / "RaftTrace.tla", cfg, label=lab, workers=1, timeout=3000, heap="3g",
+        res = tlc.run(SPEC / "RaftTrace.tla", cfg, label=lab, workers=1, timeout=3000, heap="2g",
                       env=dict(JVM_SHORT, TRACE_FILE=str(f)))
         got = {}
         flat = re.sub(r"\s*\n\s*", " ", res.stdout)      # TLC wraps long PrintT values
@@ -680,7 +684,7 @@ def validate(traces_by_n, dev, label, chunk=7000):
         return got, res
 
     verdicts, results = {}, []
-    with ThreadPoolExecutor(max_workers=max(2, min(8, tlc.DEFAULT_WORKERS // 2))) as ex:
+    with ThreadPoolExecutor(max_workers=max(2, min(5, tlc.DEFAULT_WORKERS // 3))) as ex:
         for got, res in ex.map(one, work):
             verdicts.update(got)
             results.append(res)
@@ -742,32 +746,40 @@ def run(tier, seed, replay=None):
     f_mc = bg.submit(model_check, chk, tier, known)
     f_beh = bg.submit(model_behaviours, chk, tier, known, random.Random(rng.random()))
 
-    traces, meta = {}, {}
+    # Executions of the real code are judged in batches by RaftTrace.tla while later ones are still being
+    # produced; a batch is dropped from memory once judged (replay files keep what is needed).
+    meta, verdicts_all = {}, {}
+    state = {"cur": {}, "steps": 0, "tid": 0}
+    batches = []
+    vpool = ThreadPoolExecutor(max_workers=2)
+    batch_steps = 14000 if quick else 60000
+
+    def flush():
+        if not state["cur"]:
+            return
+        b, state["cur"], state["steps"] = state["cur"], {}, 0
+        by_n = {}
+        for tid, t in b.items():
+            by_n.setdefault(meta[tid]["n"], []).append(t)
+        batches.append((b, vpool.submit(validate, by_n, known, f"C11_trace_b{len(batches)}")))
 
     def add(trace_owner, origin, n, **extra):
-        tid = len(traces) + 1
-        traces[tid] = trace_owner.trace(tid)
+        state["tid"] += 1
+        tid = state["tid"]
+        state["cur"][tid] = trace_owner.trace(tid)
+        state["steps"] += len(trace_owner.steps)
         meta[tid] = dict(origin=origin, n=n, **extra)
         chk.impl_steps += len(trace_owner.steps)
         for note in trace_owner.notes[:3]:
             chk.note_drift(f"trace {tid} ({origin}): {note}")
+        if state["steps"] >= batch_steps:
+            flush()
         return tid
 
-    # code -> spec, direct drive
-    n_rand = 360 if quick else 12000
-    styles = {}
-    for k in range(n_rand):
-        n = (3, 3, 5, 4)[k % 4]
-        sub, steps = rng.randrange(1 << 30), rng.randint(25, 90) if quick else rng.randint(30, 160)
-        w, style = random_schedule(random.Random(sub), n, steps)
-        styles[style] = styles.get(style, 0) + 1
-        add(w, f"random:{style}", n, sub=sub, steps=steps)
-    chk.extra["random_schedules"] = styles
-
-    # code -> spec, real Simulation
-    n_sim = 22 if quick else 500
-    n_ff = 6 if quick else 80
-    prog_fail = []
+    # code -> spec, real Simulation (long traces first: their validation overlaps everything else)
+    n_sim = 22 if quick else 150
+    n_ff = 6 if quick else 30
+    prog_fail = {}
     sim_events = 0
     for k in range(n_sim):
         kind = "scenario" if k % 12 == 0 else "adversarial"
@@ -781,9 +793,23 @@ def run(tier, seed, replay=None):
         sim_events += m["events"]
         tid = add(sw, "sim:faultfree", sw.n, sim=m, sub=sub, kind="faultfree")
         if prog:
-            prog_fail.append((tid, prog))
+            prog_fail[tid] = prog
     chk.extra["simulation_events"] = sim_events
+    chk.extra["simulation_runs"] = n_sim + n_ff
     chk.extra["faultfree_runs"] = n_ff
+    flush()
+
+    # code -> spec, direct drive
+    n_rand = 360 if quick else 3000
+    styles = {}
+    for k in range(n_rand):
+        n = (3, 3, 5, 4)[k % 4]
+        sub, steps = rng.randrange(1 << 30), rng.randint(25, 90) if quick else rng.randint(30, 160)
+        w, style = random_schedule(random.Random(sub), n, steps)
+        styles[style] = styles.get(style, 0) + 1
+        add(w, f"random:{style}", n, sub=sub, steps=steps)
+    chk.extra["random_schedules"] = styles
+    flush()
     phase["python_drivers"] = round(time.time() - t0, 1)
 
     # spec -> code: behaviours of the as-code model's state graph
@@ -809,45 +835,45 @@ def run(tier, seed, replay=None):
     chk.extra["model_choices_inapplicable_on_code"] = skipped
     if skipped:
         chk.note_drift(f"{skipped} environment choices of model behaviours were not applicable on the real nodes")
+    flush()
 
-    by_n = {}
-    for tid, t in traces.items():
-        by_n.setdefault(meta[tid]["n"], []).append(t)
-    verdicts, results = validate(by_n, known, "C11_trace")
-    for r in results:
-        chk.add_tlc(f"RaftTrace batch (Dev=as-code {known})", r)
-    chk.impl_traces = len(traces)
+    n_fail = n_drift = 0
+    for b, fut in batches:
+        verdicts, results = fut.result()
+        for r in results:
+            chk.add_tlc(f"RaftTrace batch (Dev=as-code {known})", r)
+        failing = {tid: v for tid, v in verdicts.items() if v[3]}
+        n_fail += len(failing)
+        for tid, v in sorted(verdicts.items()):
+            verdicts_all[tid] = v[:3]
+            if v[0].startswith("MODEL:"):
+                n_drift += 1
+                chk.note_drift(f"trace {tid} ({meta[tid]['origin']}): {v[0]} at step {v[1]}")
+        if failing:
+            classify(chk, failing, b, meta, known)
+        for tid, prog in prog_fail.items():
+            if tid in b and not verdicts[tid][3]:          # no safety failure reported for this run
+                chk.violation("progress_fault_free", f"fault-free run (delays << election timeout): {prog[0]}",
+                              {"meta": meta[tid], "trace": b[tid], "progress": prog})
+        want = [tid for tid in b if len(chk.samples) < 4 and
+                (meta[tid]["origin"].split(":")[0] not in {s["origin"].split(":")[0] for s in chk.samples})]
+        for tid in want[:1] + sorted(failing)[:1]:
+            chk.sample({"origin": meta[tid]["origin"], "verdict": list(verdicts[tid][:3]), "n": meta[tid]["n"],
+                        "steps": [{k: v for k, v in s.items() if k in ("a", "n", "m", "op", "w", "res")}
+                                  for s in b[tid]["steps"][:30]]})
+        b.clear()
+    vpool.shutdown()
+    chk.impl_traces = len(verdicts_all)
     phase["traces_validated"] = round(time.time() - t0, 1)
-
-    failing ={tid: v for tid, v in verdicts.items() if v[3]}
-    drift = {tid: v for tid, v in verdicts.items() if v[0].startswith("MODEL:")}
-    for tid, v in sorted(drift.items())[:20]:
-        chk.note_drift(f"trace {tid} ({meta[tid]['origin']}): {v[0]} at step {v[1]}")
-    chk.extra["counterexample_on_real_nodes"] = {d: list(verdicts[t][:3]) for d, t in cex_tid.items()}
+    chk.extra["counterexample_on_real_nodes"] = {d: list(verdicts_all[t]) for d, t in cex_tid.items()}
     for d, t in cex_tid.items():
-        hit = any(c == DEVIATIONS[d]["inv"] for c, _ in verdicts[t][3])
-        if d in known and not hit:
-            chk.note_drift(f"registered deviation {d}: TLC's counterexample no longer fails on the real nodes "
-                           f"({verdicts[t][0]}); the finding may have been fixed")
-    chk.extra["traces_accepted"] = sum(1 for v in verdicts.values() if v[0] == "ACCEPT")
-    chk.extra["traces_with_contract_failure"] = len(failing)
-    chk.extra["traces_with_model_mismatch_only"] = len(drift)
-    chk.extra["verdict_histogram"] = _hist(v[0] for v in verdicts.values())
-    if failing:
-        classify(chk, failing, traces, meta, known)
-    for tid, prog in prog_fail:
-        if verdicts[tid][0].startswith("PROP:"):
-            continue        # a safety failure already reported for this run
-        chk.violation("progress_fault_free", f"fault-free run (delays << election timeout): {prog[0]}",
-                      {"meta": meta[tid], "trace": traces[tid], "progress": prog})
-
-    some = [tid for tid in traces if meta[tid]["origin"].startswith("model")][:1] + \
-           [tid for tid in traces if meta[tid]["origin"].startswith("sim")][:1] + sorted(failing)[:2]
-    for tid in some:
-        t = traces[tid]
-        chk.sample({"origin": meta[tid]["origin"], "verdict": list(verdicts[tid]), "n": meta[tid]["n"],
-                    "steps": [{k: v for k, v in s.items() if k in ("a", "n", "m", "op", "w", "res")}
-                              for s in t["steps"][:40]]})
+        if d in known and verdicts_all[t][0] == "ACCEPT":
+            chk.note_drift(f"registered deviation {d}: TLC's counterexample no longer fails on the real nodes; "
+                           f"the finding may have been fixed")
+    chk.extra["traces_accepted"] = sum(1 for v in verdicts_all.values() if v[0] == "ACCEPT")
+    chk.extra["traces_with_contract_failure"] = n_fail
+    chk.extra["traces_with_model_mismatch_only"] = n_drift
+    chk.extra["verdict_histogram"] = _hist(v[0] for v in verdicts_all.values())
     chk.exhaustive = all(chk.extra.get("tour_complete", {}).values()) if chk.extra.get("tour_complete") else False
     chk.assumptions = [
         "nodes 1..N with N in 3..5; commands are distinct integers (op ids); state machine = recorder",
